@@ -1,4 +1,4 @@
-"""C19 — messages reach exactly the addressed sessions, once, with the true sender."""
+"""C19 — virtual sessions exist only through, and as long as, their internal client."""
 from . import _hub
 
 CONFIG = dict(
@@ -15,7 +15,7 @@ CONFIG = dict(
 )
 
 MANIFEST = dict(
-    text="Lean 4 theorems over the hub model: add/remove/in-call requests of sessions that are not internal clients change nothing; a virtual session is created only in the room of that id on the internal client's own backend; in every reachable state a virtual session has no connection of its own and its owner exists, is an internal session of the same backend and lists it (so none can outlive its internal client), the virtual-session table is sound, a virtual session in a room is a member but not a bus listener and messages addressed to it are written to the internal client with the recipient rewritten (C05_routing); a removed virtual session is gone, with no residue (C07_no_residue). Differential hub run with add/update/remove from internal and ordinary clients, duplicate ids, messages to virtual sessions, end of the parent.",
-    note='Synchronous routing layer: single hub, loopback bus, quiescence between ops; no gRPC peers, MCU or federation. Trusted: Lean kernel, extractor, harness (real websockets, fake Nextcloud backend) and comparison. Backend notifications (session add/remove requests) are parameters of the ops (success/failure), their content is not compared. Flags updates (updatesession) are not modelled.',
+    text="Lean 4 theorems over the hub model: add/remove/in-call requests of sessions that are not internal clients change nothing; a virtual session is created only in the room of that id on the internal client's own backend; in every reachable state a virtual session has no connection of its own and its owner exists, is an internal session of the same backend and lists it (so none can outlive its internal client), the virtual-session table is sound, a virtual session in a room is a member but not a bus listener and messages addressed to it are written to the internal client with the recipient rewritten (C05_routing); a removed virtual session is gone, with no residue (C07_no_residue), and it is among the removals the backend has to be told about (C19_gone_iff, C19_removed_is_reported). Differential hub run with add/remove from internal and ordinary clients, duplicate ids with failing adds, messages to virtual sessions from both backends, end of the parent by bye/expiry/room deletion (scripted openings + random walk); the fake backend's 'remove' requests of every step are compared with the virtual sessions that went away, and the judge flags a removal the backend was not told about or a virtual session that outlives its removal.",
+    note='Synchronous routing layer: single hub, loopback bus, quiescence between ops; no gRPC peers, MCU or federation. Trusted: Lean kernel, extractor, harness (real websockets, fake Nextcloud backend) and comparison. Backend add requests are parameters of the ops (success/failure); remove requests are observed (room and session). Flags updates (updatesession) are not modelled.',
     technique="Lean 4 proof (routing refinement over the hub model) + differential correspondence",
 )
